@@ -32,7 +32,9 @@ class EvenAsphere(NewtonRaphsonGeometry):
     def __init__(self, coordinate_system, radius, conic=0.0,
                  tol=1e-10, max_iter=100, coefficients=[]):
         super().__init__(coordinate_system, radius, conic, tol, max_iter)
-        self.c = coefficients
+        # own copy: the caller's list (or the shared default) must not be
+        # edited through this surface, nor this surface through it
+        self.c = list(coefficients)
         self.is_symmetric = True
 
     def sag(self, x=0, y=0):
@@ -94,7 +96,7 @@ class EvenAsphere(NewtonRaphsonGeometry):
             dict: The dictionary representation of the geometry.
         """
         data = super().to_dict()
-        data["coefficients"] = self.c
+        data["coefficients"] = [float(c) for c in self.c]
 
         return data
 
